@@ -17,6 +17,9 @@ pub mod registry;
 #[cfg_attr(docsrs, doc(cfg(feature = "storage")))]
 pub mod storage;
 
+#[cfg(all(metrics_verif, feature = "storage"))]
+pub mod verif_shim;
+
 mod common;
 pub use common::*;
 
